@@ -49,6 +49,27 @@ def cases(tier, seed):
             if tier == 'quick' and i not in (0, 3, 5, 6):
                 continue
             yield dict(env=c['env'], f=c['f'], lam=c['lam'], wires=ws, srcs=c['srcs'], name='%s#%d' % (c['extra'], i), fine=False)
+    # arrays of EXACTLY vertical wires away from the z axis (phased / parasitic verticals, grounded monopoles): the only
+    # azimuth dependence is the array factor
+    rot, sc, f = geom.variant(seed)
+    lam = geom.C_MININEC / f
+    r = 2e-4 * lam
+
+    def vert(x, y, z0, L, n):
+        return geom.wire([x * lam, y * lam, z0 * lam], [x * lam, y * lam, (z0 + L) * lam], n, r)
+
+    def vsrc(x, y, z, v):
+        return dict(at=[x * lam, y * lam, z * lam], dir=[0., 0., 1.], v=v)
+    arrays = [('1-offaxis', 'free', [vert(0.21, -0.13, 0.1, 0.4, 8)], [vsrc(0.21, -0.13, 0.3, [1., 0.])]),
+              ('2-phased', 'free', [vert(0.1, 0.05, 0., 0.4, 8), vert(-0.12, 0.2, 0.05, 0.45, 9)],
+               [vsrc(0.1, 0.05, 0.2, [1., 0.]), vsrc(-0.12, 0.2, 0.3, [0., -1.])]),
+              ('3-parasitic', 'free', [vert(0., 0., 0., 0.4, 8), vert(0.2, 0., -0.02, 0.45, 9), vert(-0.1, 0.17, 0.03, 0.35, 7)],
+               [vsrc(0., 0., 0.2, [1., 0.])]),
+              ('2-monopoles', 'ideal', [vert(0.1, 0.05, 0., 0.24, 6), vert(-0.15, 0.2, 0., 0.28, 7)],
+               [vsrc(0.1, 0.05, 0., [1., 0.]), vsrc(-0.15, 0.2, 0., [0.3, 0.8])]),
+              ('monopole+elevated', 'ideal', [vert(0.1, -0.2, 0., 0.24, 6), vert(-0.1, 0.1, 0.1, 0.4, 8)], [vsrc(0.1, -0.2, 0.04, [1., 0.])])]
+    for name, env, ws, srcs in arrays:
+        yield dict(env=env, f=f, lam=lam, wires=ws, srcs=srcs, name='vertical-' + name, fine=False)
     # fixed (seed-independent) known-finding inputs for the 2 % clause
     P0, f0, lam0 = geom.lattice(0, ground=False)
     yield dict(env='free', f=f0, lam=lam0, pts=[list(map(float, p)) for p in P0], fixed=True, fine=True, nodomain=True,
@@ -65,7 +86,7 @@ def evaluate(c):
     from mcx.props.c06 import excitation
     ground = c['env'] != 'free'
     if 'wires' in c:
-        case = dict(f=c['f'], env=c['env'], wires=c['wires'], sources=c['srcs'])
+        case = dict(f=c['f'], env=c['env'], wires=c['wires'], sources=geom.rotate_voltages(c['srcs']))
         name = c['name']
     else:
         pts = [np.array(p) for p in c['pts']]
@@ -76,14 +97,15 @@ def evaluate(c):
         srcs, loads = excitation(c)
         if srcs is None:
             return dict(viol=[], skipped='no-feed-position', evals=0)
-        case['sources'] = srcs
+        case['sources'] = geom.rotate_voltages(srcs)
         name = '%s|%s|fine=%s' % (c['env'], [(e['a'], e['b'], e['n']) for e in c['st']], c['fine'])
     try:
         m = geom.build(case)
     except ValueError as e:
         return dict(viol=[], skipped='rejected:' + str(e)[:30], evals=0)
     m.compute()
-    if not (m.power > 0):
+    Pin = geom.input_power(m)
+    if not (Pin > 0):
         return dict(viol=[], skipped='non-positive input power', evals=1)
     zen = (0., 15., 7) if ground else (0., 15., 13)
     azi = (3., 40., 10)
@@ -112,9 +134,9 @@ def evaluate(c):
         g = np.array(gain)
         if g.shape[:2] != et.shape:
             g = np.transpose(g, (1, 0, 2))
-        P = m.power if pwr is None else pwr
+        P = Pin if pwr is None else pwr
         r = dist if dist else 1.0
-        scale = math.sqrt(P / m.power) / r
+        scale = math.sqrt(P / Pin) / r
         mx = max(np.abs(ref_m).max() * scale, 1e-300)
         # 1. radiation sum with moments at pulse points
         dv = max(np.abs(et - ref_m[..., 0] * scale).max(), np.abs(ep - ref_m[..., 1] * scale).max()) / mx
